@@ -93,6 +93,23 @@ static void* dbuf(uint64_t nbytes) {
 #endif
   return p;
 }
+/* scratch buffer starting TOFFS 64-bit words (8*TOFFS bytes) past a 64-byte boundary (C15: results do not depend on the alignment of the buffers) */
+#ifndef TOFFS
+#define TOFFS 0
+#endif
+static void* tbuf(uint64_t nbytes) {
+#if TOFFS == 0
+  return dbuf(nbytes);
+#else
+#ifdef __CPROVER__
+  double* p = (double*)malloc((nbytes / 8 + TOFFS) * sizeof(double)); /* offset 0 of an object plays the 64-byte boundary */
+  __CPROVER_assume(p != 0);
+#else
+  double* p = (double*)aligned_alloc(64, ((nbytes + 8 * TOFFS + 63) / 64) * 64);
+#endif
+  return p + TOFFS;
+#endif
+}
 
 void h_prod(void) {
   vf_fullmod fm;
@@ -122,7 +139,7 @@ void h_prod(void) {
   g_res_base = res;
 
 #if PATH == 0
-  uint8_t* tmp = (uint8_t*)dbuf(znx_small_single_product_tmp_bytes(mod));
+  uint8_t* tmp = (uint8_t*)tbuf(znx_small_single_product_tmp_bytes(mod));
   znx_small_single_product(mod, res, a, b, tmp);
 #elif PATH == 1
   uint64_t* pp = (uint64_t*)dbuf(bytes_of_svp_ppol(mod));
@@ -132,21 +149,21 @@ void h_prod(void) {
 #ifdef TMPA
   vec_znx_idft_tmp_a(mod, (VEC_ZNX_BIG*)res, RSZ, (VEC_ZNX_DFT*)dft, RSZ);
 #else
-  uint8_t* tmp = (uint8_t*)dbuf(vec_znx_idft_tmp_bytes(mod));
+  uint8_t* tmp = (uint8_t*)tbuf(vec_znx_idft_tmp_bytes(mod));
   vec_znx_idft(mod, (VEC_ZNX_BIG*)res, RSZ, (VEC_ZNX_DFT*)dft, RSZ, tmp);
 #endif
 #else
   uint64_t* pm = (uint64_t*)dbuf(bytes_of_vmp_pmat(mod, NROWS, NCOLS));
-  uint8_t* tmp0 = (uint8_t*)dbuf(vmp_prepare_contiguous_tmp_bytes(mod, NROWS, NCOLS));
+  uint8_t* tmp0 = (uint8_t*)tbuf(vmp_prepare_contiguous_tmp_bytes(mod, NROWS, NCOLS));
   vmp_prepare_contiguous(mod, (VMP_PMAT*)pm, b, NROWS, NCOLS, tmp0);
   uint64_t* dft = (uint64_t*)dbuf(bytes_of_vec_znx_dft(mod, RSZ));
 #if PATH == 2
-  uint8_t* tmp = (uint8_t*)dbuf(vmp_apply_dft_tmp_bytes(mod, RSZ, ASZ, NROWS, NCOLS));
+  uint8_t* tmp = (uint8_t*)tbuf(vmp_apply_dft_tmp_bytes(mod, RSZ, ASZ, NROWS, NCOLS));
   vmp_apply_dft(mod, (VEC_ZNX_DFT*)dft, RSZ, a, ASZ, ASL, (VMP_PMAT*)pm, NROWS, NCOLS, tmp);
 #else
   uint64_t* adft = (uint64_t*)dbuf(bytes_of_vec_znx_dft(mod, ASZ));
   vec_znx_dft(mod, (VEC_ZNX_DFT*)adft, ASZ, a, ASZ, ASL);
-  uint8_t* tmp = (uint8_t*)dbuf(vmp_apply_dft_to_dft_tmp_bytes(mod, RSZ, ASZ, NROWS, NCOLS));
+  uint8_t* tmp = (uint8_t*)tbuf(vmp_apply_dft_to_dft_tmp_bytes(mod, RSZ, ASZ, NROWS, NCOLS));
   vmp_apply_dft_to_dft(mod, (VEC_ZNX_DFT*)dft, RSZ, (VEC_ZNX_DFT*)adft, ASZ, (VMP_PMAT*)pm, NROWS, NCOLS, tmp);
 #endif
   vec_znx_idft_tmp_a(mod, (VEC_ZNX_BIG*)res, RSZ, (VEC_ZNX_DFT*)dft, RSZ);
